@@ -3569,3 +3569,37 @@ C10D_EQUALS = dict(
            ("np.array_equal(__a, __b)", "!np_array_equal aeqb feqb {a} {b}", "bool", {"a": _PV, "b": _PV})])
 C10D_ALL = [C10D_SC_PRIVATE, C10D_SC_FROM, C10D_THETA_SHARED, C10D_IN_PRIVATE, C10D_IN_SHARED, C10D_IN_FROM, C10D_EQUALS]
 ALL += C10D_ALL
+
+# ---- C14 / C06 leftovers: Screen.concat, Screen.single_treatment_effects (vocabulary: end of Model/Views.v; Generated/SrcPlates.v),
+# SizeScorer.score (end of Model/Scores.v; Generated/SrcScoring.v) ----
+# Screen.concat: `new_tag` is the identity of the Screen objects that combine creates (never tested here; the link holds for every value)
+L10B_SCREEN_CONCAT = dict(
+    _H14, cls="Screen", func="concat", name="src_screen_concat", pyparams=["cls", "screens"], unused_params=["cls"],
+    params=[("new_tag", "Z"), ("screens", "list pyscreen")], returns="pyscreen", vars={"result": "pyscreen", "screen": "pyscreen"},
+    prims=[("len(__l)", "Z.of_nat (length {l})", "Z", {"l": "list pyscreen"}),
+           ("__l[0]", "!list_get {l} (0)", "pyscreen", {"l": "list pyscreen"}),
+           ("__l[1:]", "tl {l}", "list pyscreen", {"l": "list pyscreen"}),
+           # a.combine(b) runs the translated Screen.combine; its result is a new object
+           ("__a.combine(__b)", "!(dor c__ <- src_screen_combine {a} {b}; Ok (new_tag, c__))", "pyscreen", {"a": "pyscreen", "b": "pyscreen"})],
+    raises=[("Cannot concat empty list", 24)])
+# Screen.single_treatment_effects: create_single_treatment_effect_array is ANY function effect_array (its own translation is linked
+# by C20 in the Synergy vocabulary); `key_error` = the tag its KeyError carries
+L10B_SCREEN_STE = dict(
+    _H14, cls="Screen", func="single_treatment_effects", name="src_screen_single_treatment_effects", pyparams=["self"],
+    params=[("E", "Type"), ("key_error", "Z"), ("effect_array", "(list Z -> list (list Z) -> list Z -> result (list E))"),
+            ("self", "pyscreen")],
+    returns="opt list E", vars={}, prims=C14_SCREEN_SIZE["prims"][:-1],       # the C14 block's Screen attributes
+    except_tags={"KeyError": "key_error"},
+    kwcalls={"create_single_treatment_effect_array": (
+        "!effect_array {sample_ids} {treatment_ids} {observation}", "list E",
+        [("sample_ids", "list Z", None), ("treatment_ids", "list (list Z)", None), ("observation", "list Z", None)])},
+    ignore=["logger.warning(__a)"])
+# SizeScorer.score: the plates dict is `dict subset` (C06: a Plate where a ScreenSubset is expected is its rows), plate.size = their number
+L10B_SIZE_SCORER = dict(
+    file="src/batchie/scoring/size.py", cls="SizeScorer", func="score", out="SrcScoring.v", imports="Model.Scores",
+    name="src_size_scorer_score", pyparams=["self", "plates", "distance_matrix", "samples", "rng", "progress_bar"],
+    unused_params=["self", "distance_matrix", "samples", "rng", "progress_bar"],
+    params=[("plates", "dict subset")], returns="dict", vars={"scores": "dict"},
+    prims=[("__p.size", "Z.of_nat (length {p})", "Z", {"p": "subset"})])
+L10B_EXTRA = [L10B_SCREEN_CONCAT, L10B_SCREEN_STE, L10B_SIZE_SCORER]
+ALL += L10B_EXTRA
